@@ -210,6 +210,17 @@ def apply_transform(
     module = copy.deepcopy(module)
 
     torch_nn_modules_to_user_modules(module)
+    root_type = type(module)
+    if root_type.__module__.startswith(("torch.nn.", "torch.ao.")):
+        # TorchDynamo only starts tracing in user code, so a root module that is itself a
+        # torch.nn layer gets a trivial subclass whose forward is defined here (`module`
+        # is our own copy, so its class can be swapped in place)
+        def forward(self: nn.Module, *args: Any, **kwargs: Any) -> Any:
+            return root_type.forward(self, *args, **kwargs)
+
+        module.__class__ = type(
+            "trivial_subclass_" + root_type.__name__, (root_type,), {"forward": forward}
+        )
 
     if not hasattr(module, "backends"):
         module.backends = []
